@@ -85,6 +85,7 @@ package ratelimiter
 //@   let c1 := buC1(C0, n)
 //@   let w := buWait(a1, c1, requestedPermits, s.periodPermits, s.period, t)
 //@   let refused := requestedPermits > a1 && maxWaitTime != -1 && w > maxWaitTime
+//@   use C05.bursty.deficit_periods(requestedPermits - a1, s.periodPermits)
 //@   ensures [C05.bursty.roll] s.currentPeriod == c1
 //@   ensures [C05.bursty.refuse] refused ==> result == -1 && s.availablePermits == a1
 //@   ensures [C05.bursty.grant] !refused ==> result == w && s.availablePermits == a1 - requestedPermits
@@ -98,3 +99,85 @@ package ratelimiter
 //@   witness t := t
 //@   witness k := requestedPermits
 //@   witness maxWait := maxWaitTime
+
+// arithmetic of "how many further periods": d / P, minus one when d is a multiple of P, is (d-1) / P
+//@ lemma [C05.bursty.deficit_periods] forall d int, P int :: d >= 1 && P >= 1 ==> ite(emod(d, P) == 0, ediv(d, P) - 1, ediv(d, P)) == ediv(d - 1, P)
+
+// ---------------------------------------------------------------------------------------------
+// Bursty history lemmas. pos = (C+1)*P - A is the index of the next unassigned permit position (P per period).
+// Rolling forward never moves the next position into the past and never backwards:
+//@ lemma [C05.bursty.no_past] forall A int, C int, n int, P int :: P >= 1 && A <= P && C >= 0 && n >= 0 ==> buPos(buA1(A, C, n, P), buC1(C, n), P) == max(buPos(A, C, P), ite(C < n, n*P, buPos(A, C, P)))
+// A refused request has rolled the period forward; that is unobservable: roll(roll(s,n1),n2) == roll(s,n2).
+//@ lemma [C05.bursty.refusal_unobservable] forall A int, C int, n1 int, n2 int, P int :: P >= 1 && A <= P && C >= 0 && n1 >= 0 && n1 <= n2 ==> buA1(buA1(A, C, n1, P), buC1(C, n1), n2, P) == buA1(A, C, n2, P) && buC1(buC1(C, n1), n2) == buC1(C, n2)
+// The capped credit keeps the invariant A <= P.
+//@ lemma [C05.bursty.credit_capped] forall A int, C int, n int, P int :: P >= 1 && A <= P ==> buA1(A, C, n, P) <= P
+
+// ---------------------------------------------------------------------------------------------
+// The public wrappers delegate to exactly one acquirePermits call of the stats object (verified against the
+// interface: the two implementations are verified above against their functional contracts).
+//@ extfunc github.com/failsafe-go/failsafe-go/ratelimiter.stats.acquirePermits
+//@   havoc
+//@   ensures result >= -1
+//@ frozen rateLimiter.config, rateLimiter.stats, executor.BaseExecutor, executor.rateLimiter
+
+//@ func (*rateLimiter).TryReservePermits
+//@   requires r != nil && r.stats != nil && requestedPermits <= 2147483648
+//@   ensures [C05.api.tryreserve] ncalls(r.stats.acquirePermits) == 1 && arg(r.stats.acquirePermits, 1, 0) == requestedPermits && arg(r.stats.acquirePermits, 1, 1) == maxWaitTime && result == ret(r.stats.acquirePermits, 1)
+//@   havoc
+//@   modifies calls(r.stats.acquirePermits)
+//@ func (*rateLimiter).TryAcquirePermits
+//@   requires r != nil && r.stats != nil && permits <= 2147483648
+//@   ensures [C05.api.tryacquire] ncalls(r.stats.acquirePermits) == 1 && arg(r.stats.acquirePermits, 1, 0) == permits && arg(r.stats.acquirePermits, 1, 1) == 0 && result == (ret(r.stats.acquirePermits, 1) == 0)
+//@   havoc
+//@   modifies calls(r.stats.acquirePermits)
+//@ func (*rateLimiter).ReservePermits
+//@   requires r != nil && r.stats != nil && permits <= 2147483648
+//@   ensures [C05.api.reserve] ncalls(r.stats.acquirePermits) == 1 && arg(r.stats.acquirePermits, 1, 0) == permits && arg(r.stats.acquirePermits, 1, 1) == -1 && result == ret(r.stats.acquirePermits, 1)
+//@   havoc
+//@   modifies calls(r.stats.acquirePermits)
+//@ func (*rateLimiter).TryAcquirePermit
+//@   requires r != nil && r.stats != nil
+//@   ensures [C05.api.tryacquire1] ncalls(r.stats.acquirePermits) == 1 && arg(r.stats.acquirePermits, 1, 0) == 1 && arg(r.stats.acquirePermits, 1, 1) == 0 && result == (ret(r.stats.acquirePermits, 1) == 0)
+//@   havoc
+//@   modifies calls(r.stats.acquirePermits)
+//@ func (*rateLimiter).ReservePermit
+//@   requires r != nil && r.stats != nil
+//@   ensures [C05.api.reserve1] ncalls(r.stats.acquirePermits) == 1 && arg(r.stats.acquirePermits, 1, 0) == 1 && arg(r.stats.acquirePermits, 1, 1) == -1 && result == ret(r.stats.acquirePermits, 1)
+//@   havoc
+//@   modifies calls(r.stats.acquirePermits)
+//@ func (*rateLimiter).TryReservePermit
+//@   requires r != nil && r.stats != nil
+//@   ensures [C05.api.tryreserve1] ncalls(r.stats.acquirePermits) == 1 && arg(r.stats.acquirePermits, 1, 0) == 1 && arg(r.stats.acquirePermits, 1, 1) == maxWaitTime && result == ret(r.stats.acquirePermits, 1)
+//@   havoc
+//@   modifies calls(r.stats.acquirePermits)
+
+// Blocking acquire: ErrExceeded iff the stats refused; nil only after the timer created for the wait has fired.
+//@ func (*rateLimiter).acquirePermitsWithMaxWait
+//@   requires r != nil && r.stats != nil && requestedPermits <= 2147483648
+//@   ext w := ret(r.stats.acquirePermits, 1)
+//@   assume ret(ite(ctx == nil, background(), ctx).Err, 1) != nil && (exec != nil ==> ret(exec.LastError, 1) != nil)
+//@   ensures [C05.blocking.one_request] ncalls(r.stats.acquirePermits) == 1 && arg(r.stats.acquirePermits, 1, 0) == requestedPermits && arg(r.stats.acquirePermits, 1, 1) == maxWaitTime
+//@   ensures [C05.blocking.refused] w == -1 ==> result == ErrExceeded
+//@   ensures [C05.blocking.no_early_success] result == nil ==> w != -1 && ite(exec == nil, sel(1), sel(2)) == 0
+//@   ensures [C08.ratelimiter.cancel] w != -1 && result != nil ==> (exec == nil ==> ncalls(ite(ctx == nil, background(), ctx).Err) == 1) && (exec != nil ==> result == ret(exec.LastError, 1))
+//@   havoc
+//@   modifies calls(r.stats.acquirePermits), calls(ctx.Done), calls(ctx.Err), calls(background().Done), calls(background().Err), canceled(ctx), canceled(background()), calls(exec.Canceled), calls(exec.LastError)
+
+//@ extfunc github.com/failsafe-go/failsafe-go.Execution.LastError
+//@   modifies nothing
+//@ extfunc github.com/failsafe-go/failsafe-go.Execution.Context
+//@   modifies nothing
+//@   ensures result != nil
+
+// The executor: an error from the limiter means the inner function is not invoked.
+//@ func (*executor).Apply$1
+//@   requires e != nil && e.rateLimiter != nil && e.config != nil && e.stats != nil && innerFn != nil && exec != nil
+//@   ext ctx := reti(exec.Context, 1)
+//@   ext w := ret(e.stats.acquirePermits, 1)
+//@   ensures [C05.executor.one_permit] ncalls(e.stats.acquirePermits) == 1 && arg(e.stats.acquirePermits, 1, 0) == 1 && arg(e.stats.acquirePermits, 1, 1) == e.maxWaitTime
+//@   ensures [C05.executor.refused+C01.ratelimiter.admit] ncalls(innerFn) == 0 ==> result != nil && result.Error != nil && result.Done && !result.Success
+//@   ensures [C05.executor.refused_exceeded] w == -1 ==> ncalls(innerFn) == 0 && result.Error == ErrExceeded
+//@   ensures [C05.executor.admitted] ncalls(innerFn) <= 1 && (ncalls(innerFn) == 1 ==> result == ret(innerFn, 1) && arg(innerFn, 1, 0) == exec && w != -1)
+//@   ensures [C16.ratelimiter.exceeded] (w == -1 && e.onRateLimitExceeded != nil ==> ncalls(e.onRateLimitExceeded) == 1) && (ncalls(innerFn) == 1 ==> ncalls(e.onRateLimitExceeded) == 0)
+//@   havoc
+//@   modifies calls(innerFn), calls(e.stats.acquirePermits), calls(e.onRateLimitExceeded), calls(exec.Context), calls(ctx.Done), calls(ctx.Err), canceled(ctx), calls(background().Done), calls(background().Err), canceled(background()), calls(exec.Canceled), calls(exec.LastError)
